@@ -28,7 +28,8 @@ Inductive input :=
 | InFlatAttrs (fsizes : list Z) (offset isz c dt cs : Z) (rate : float) (ratet : tok)
 | InAny (sizes : list Z) (c : Z) (dt : Z) (it : item) (cols : option colsel)
 | InSub (sizes : list Z) (it : item)
-| InCtor (fsizes : list Z) (offset isz c cs : Z).
+| InCtor (direct : bool) (fsizes : list Z) (offset isz c cs : Z)
+| InDispatch (s : shape_case).
 
 Inductive observed :=
 | ObsRows (dt : Z) (rows : list (list Z))
@@ -36,6 +37,7 @@ Inductive observed :=
 | ObsAttrs (shape0 shape1 nsamples nchannels dt : Z) (dur : float) (durt : tok) (pb : list Z)
 | ObsSubs (subs : list subitem)                  (* what _get_subitems returned *)
 | ObsBounds (pb : list Z)                        (* the constructor succeeded: part_bounds *)
+| ObsNone                                        (* get_ephys_reader returned None / a call returned normally *)
 | ObsRaise (k : Z)                               (* exception class (exn_code), 0 = another class *)
 | ObsOther                                       (* not a 2-D integer-valued block *)
 | ObsCrash.
@@ -135,10 +137,18 @@ Definition check (c : case) : list Z :=
                    end)
       | _ => [1; 21]
       end
-  | InCtor fsizes offset isz nc cs, o =>
-      if negb ((1 <=? zlen fsizes) && forallb (fun f => 0 <=? f) fsizes && (0 <=? offset) && (1 <=? isz)) then [3] else
-      flag 1 (match flat_ctor_e fsizes offset isz nc cs, o with
-              | Ok pb, ObsBounds pb' => zlist_eqb pb pb'
+  | InCtor direct fsizes offset isz nc cs, o =>
+      if negb ((0 <=? offset) && (1 <=? isz)) then [3] else
+      flag 1 (match flat_ctor_e direct fsizes offset isz nc cs, o with
+              | Ok (Some pb), ObsBounds pb' => zlist_eqb pb pb'
+              | Ok None, ObsNone => true
+              | Err e, ObsRaise k => exn_code e =? k
+              | _, _ => false
+              end)
+  | InDispatch s, o =>
+      if negb (match s with NpyPaths k => 1 <=? k | TupleArity k => 0 <=? k end) then [3] else
+      flag 1 (match dispatch_e s, o with
+              | Ok _, ObsNone => true
               | Err e, ObsRaise k => exn_code e =? k
               | _, _ => false
               end)
